@@ -206,7 +206,7 @@ func (g *vfRand) Uint32() uint32 {
 	g.q = g.q[1:]
 	return v
 }
-func (g *vfRand) Uint64() uint64                     { return uint64(g.Uint32()) }
+func (g *vfRand) Uint64() uint64                    { return uint64(g.Uint32()) }
 func (g *vfRand) GenerateString(int, string) string { return "x" }
 
 // ---------------------------------------------------------------------------------------
@@ -708,7 +708,7 @@ type vfSubReport struct {
 	Exhaustive  bool            `json:"exhaustive"`
 	Note        string          `json:"note,omitempty"`
 	WallS       float64         `json:"wall_s"`
-	Short       bool            `json:"short"` // rapid ran fewer cases than requested
+	Short       bool            `json:"short"`            // rapid ran fewer cases than requested
 	NTCount     int             `json:"nontrivial_count"` // bulk sub-checks: counted, not hashed
 	ntSet       map[string]bool `json:"-"`
 	sampleLens  []int
@@ -817,17 +817,23 @@ func (t *vfTB) Logf(f string, a ...any) {
 		t.msgs = append(t.msgs, s)
 	}
 }
-func (t *vfTB) Log(a ...any)              {}
-func (t *vfTB) Skipf(f string, a ...any)  {}
-func (t *vfTB) Skip(a ...any)             {}
-func (t *vfTB) SkipNow()                  {}
-func (t *vfTB) Errorf(f string, a ...any) { t.failed = true; t.msgs = append(t.msgs, fmt.Sprintf(f, a...)) }
-func (t *vfTB) Error(a ...any)            { t.failed = true; t.msgs = append(t.msgs, fmt.Sprint(a...)) }
-func (t *vfTB) Fatalf(f string, a ...any) { t.failed = true; t.msgs = append(t.msgs, fmt.Sprintf(f, a...)) }
-func (t *vfTB) Fatal(a ...any)            { t.failed = true; t.msgs = append(t.msgs, fmt.Sprint(a...)) }
-func (t *vfTB) FailNow()                  { t.failed = true }
-func (t *vfTB) Fail()                     { t.failed = true }
-func (t *vfTB) Failed() bool              { return t.failed }
+func (t *vfTB) Log(a ...any)             {}
+func (t *vfTB) Skipf(f string, a ...any) {}
+func (t *vfTB) Skip(a ...any)            {}
+func (t *vfTB) SkipNow()                 {}
+func (t *vfTB) Errorf(f string, a ...any) {
+	t.failed = true
+	t.msgs = append(t.msgs, fmt.Sprintf(f, a...))
+}
+func (t *vfTB) Error(a ...any) { t.failed = true; t.msgs = append(t.msgs, fmt.Sprint(a...)) }
+func (t *vfTB) Fatalf(f string, a ...any) {
+	t.failed = true
+	t.msgs = append(t.msgs, fmt.Sprintf(f, a...))
+}
+func (t *vfTB) Fatal(a ...any) { t.failed = true; t.msgs = append(t.msgs, fmt.Sprint(a...)) }
+func (t *vfTB) FailNow()       { t.failed = true }
+func (t *vfTB) Fail()          { t.failed = true }
+func (t *vfTB) Failed() bool   { return t.failed }
 
 type vfReplayFile struct {
 	Property string          `json:"property"`
